@@ -15,24 +15,33 @@ LEVEL = 'exploration'
 CASE_GUARD_S = {'quick': 300, 'thorough': 3600}  # a case is a composite (a block of expressions x all texts, ...)
 CHUNK = 4
 RULE = {
-    'quick': 'every text of length <= 4 over {a,B,space,newline,.} (781) plus boundary texts for the equals read-ahead and buffer '
+    'quick': 'every text of length <= 4 over {a,B,space,newline,.,e-acute} (1555) plus boundary texts for the equals read-ahead and buffer '
              'sizes, x every expression of the matcher / transformer families (see families() in checks/c05.py), each evaluated on a '
              'string-backed, a file-backed and an identity-wrapped file-backed model; plus a CLI slice (contents / stdout / file '
              '-transformed-by) over all expressions x 24 texts; non-trivial: transformer output differs from its input, or matcher '
              'verdict differs from its verdict on the empty text; pairs are distinct by construction',
 }
-RULE['thorough'] = RULE['quick'].replace('length <= 4', 'length <= 6').replace('(781)', '(19531)')
+RULE['thorough'] = RULE['quick'].replace('every text of length <= 4 over {a,B,space,newline,.,e-acute} (1555)', 'every text of length <= 6 over {a,B,space,newline,.} and of length <= 5 with e-acute added (24307)')
 ASSUMPTIONS = [
     'REGEX and replacement strings have Python semantics (the manual defines them by reference to Python re)',
     'characters that str.splitlines treats as line breaks (\\r, \\f, ...) belong to C14 and are not in this alphabet',
 ]
 
-SIGMA = 'aB \n.'
+SIGMA = 'aB \n.\u00e9'
 
 
 def texts(tier):
-    n = 4 if tier == 'quick' else 6
-    ts = [''.join(t) for k in range(0, n + 1) for t in itertools.product(SIGMA, repeat=k)]
+    if tier == 'quick':
+        return [''.join(t) for k in range(0, 5) for t in itertools.product(SIGMA, repeat=k)]
+    # thorough: length <= 6 over the ASCII part, length <= 5 over the whole alphabet
+    ts = [''.join(t) for k in range(0, 7) for t in itertools.product(SIGMA[:5], repeat=k)]
+    seen = set(ts)
+    for k in range(0, 6):
+        for t in itertools.product(SIGMA, repeat=k):
+            s_ = ''.join(t)
+            if s_ not in seen:
+                seen.add(s_)
+                ts.append(s_)
     return ts
 
 
